@@ -296,6 +296,31 @@ pub fn suite_qualmap(ctx: &Ctx, thorough: bool) {
         }
         if states > if thorough { 200_000 } else { 20_000 } { break; }
     }
+    // the well-known typed qualifiers: each type reads and writes exactly the qualifier of its documented key, exactly the text given
+    {
+        use purl::qualifiers::well_known::{gem, maven, DownloadUrl, FileName, RepositoryUrl, VcsUrl, KnownQualifierKey};
+        macro_rules! typed { ($t:ty, $key:literal) => {{
+            ctx.eval();
+            let others: [(&str, &str); 9] = [("classifier", "c0"), ("type", "t0"), ("platform", "p0"), ("repository_url", "r0"), ("download_url", "d0"), ("vcs_url", "v0"), ("file_name", "f0"), ("checksum", "a:00"), ("zz", "z0")];
+            let mut q = Qualifiers::try_from_iter(others).unwrap();
+            let mut m: Model = others.iter().map(|(k, v)| (k.to_string(), v.to_string())).collect();
+            let key_ok = <$t as KnownQualifierKey>::KEY == $key;
+            let before = q.get_typed::<$t>().map(|x| x.to_string());
+            for val in [" padded\t", "", "V"] {
+                q.insert_typed(<$t>::from(val));
+                m.insert($key.to_string(), val.to_string());
+                let back = q.get_typed::<$t>().map(|x| x.to_string());
+                if !key_ok || before.as_deref() != Some(others.iter().find(|(k, _)| *k == $key).unwrap().1) || back.as_deref() != Some(val) || q.get($key) != Some(val) || !q.contains_typed::<$t>() {
+                    ctx.violate("C11.typed", "a well-known typed qualifier reads and writes the qualifier of its documented key, the text unchanged", json!({"type": stringify!($t), "key": $key, "value": val}), format!("KEY={:?} before={before:?} back={back:?} get={:?}", <$t as KnownQualifierKey>::KEY, q.get($key)), format!("{val:?}"));
+                }
+                check_rep(ctx, &q, &m, concat!("insert_typed ", stringify!($t)));
+            }
+            q.remove_typed::<$t>(); m.remove($key);
+            check_rep(ctx, &q, &m, concat!("remove_typed ", stringify!($t)));
+        }}; }
+        typed!(RepositoryUrl, "repository_url"); typed!(DownloadUrl, "download_url"); typed!(VcsUrl, "vcs_url"); typed!(FileName, "file_name");
+        typed!(maven::Classifier, "classifier"); typed!(maven::Type, "type"); typed!(gem::Platform, "platform");
+    }
     // ONE reused buffer holding one key after another (same address, same length): a verdict must depend on the text only
     {
         let ks = ["arch", "a ch", "ARCH", "arcH", "ar.h", "a=ch", "os-x", "OS_X", "o s="];
@@ -325,7 +350,9 @@ pub fn suite_qualmap(ctx: &Ctx, thorough: bool) {
 #[derive(Clone, Debug, PartialEq)]
 enum Op { Ns(&'static str), Name(&'static str), Ver(&'static str), Sub(&'static str), Ty(&'static str), Q(&'static str, &'static str), NoQ(&'static str), NoQs, NoNs, NoVer, NoSub,
           /// typed setters and direct use of the builder's public qualifier list
-          TRepo(&'static str), NoTRepo, TTag(&'static str), NoTTag, NoTBad, RawQ(&'static str, &'static str), RawClear(&'static str) }
+          TRepo(&'static str), NoTRepo, TTag(&'static str), NoTTag, NoTBad, RawQ(&'static str, &'static str), RawClear(&'static str),
+          /// overwrite an EXISTING qualifier through IndexMut, resp. set one through the entry API
+          RawIdx(&'static str, &'static str), RawEntry(&'static str, &'static str) }
 
 #[derive(Clone, Debug, Default)]
 struct BModel { ty: String, ns: String, name: String, ver: String, sub: String, q: BTreeMap<String, String>, bad_key: bool }
@@ -344,6 +371,7 @@ pub fn suite_builder(ctx: &Ctx, thorough: bool) {
     ops.push(Op::TRepo("")); ops.push(Op::TRepo("u")); ops.push(Op::NoTRepo); ops.push(Op::TTag("t")); ops.push(Op::NoTTag); ops.push(Op::NoTBad);
     ops.push(Op::RawQ("r", "")); ops.push(Op::RawQ("K", "raw")); ops.push(Op::RawClear("k"));
     ops.push(Op::Ns("a///b")); ops.push(Op::Sub("x////y/"));
+    ops.push(Op::RawIdx("checksum", "SHA256:AABB,md5:00FF")); ops.push(Op::RawIdx("Checksum", "sha256:xyz")); ops.push(Op::RawEntry("checksum", "B:00,a:11")); ops.push(Op::RawEntry("k", ""));
     let len = if thorough { 4 } else { 3 };
     let n = ops.len();
     let total = (1..=len).map(|l| n.pow(l as u32)).sum::<usize>();
@@ -424,6 +452,8 @@ fn builder_one(ctx: &Ctx, seq: Vec<Op>) {
                 Op::NoTBad => { let c2 = cur.clone(); match guarded(move || c2.with_typed_qualifier(None::<BadKey>)) { Ok(nb) => nb, Err(p) => { ctx.violate("C06.panic", "unsetting a typed qualifier never panics", json!(format!("{seq:?}")), p, "no panic".into()); cur } } },
                 Op::RawQ(k, v) => { let mut c2 = cur; if c2.parts.qualifiers.insert(*k, *v).is_ok() { m.q.insert(k.to_ascii_lowercase(), v.to_string()); } c2 },
                 Op::RawClear(k) => { let mut c2 = cur; if let Some(v) = c2.parts.qualifiers.get_mut(*k) { v.clear(); m.q.insert(k.to_ascii_lowercase(), String::new()); } c2 },
+                Op::RawIdx(k, v) => { let mut c2 = cur; if c2.parts.qualifiers.contains_key(*k) { c2.parts.qualifiers[*k] = SmallString::from(*v); m.q.insert(k.to_ascii_lowercase(), v.to_string()); } c2 },
+                Op::RawEntry(k, v) => { let mut c2 = cur; if let Ok(e) = c2.parts.qualifiers.entry(*k) { *e.and_modify(|x| x.clear()).or_insert("") = SmallString::from(*v); m.q.insert(k.to_ascii_lowercase(), v.to_string()); } c2 },
                 Op::Q(k, v) => {
                     let snapshot = cur.clone();
                     match cur.with_qualifier(*k, *v) {
@@ -478,6 +508,8 @@ fn builder_one(ctx: &Ctx, seq: Vec<Op>) {
                         Op::TTag(u) => tb.with_typed_qualifier(Some(UpperTag(u))), Op::NoTTag => tb.with_typed_qualifier(None::<UpperTag>), Op::NoTBad => tb,
                         Op::RawQ(k, v) => { let mut c2 = tb; let _ = c2.parts.qualifiers.insert(*k, *v); c2 },
                         Op::RawClear(k) => { let mut c2 = tb; if let Some(v) = c2.parts.qualifiers.get_mut(*k) { v.clear(); } c2 },
+                        Op::RawIdx(k, v) => { let mut c2 = tb; if c2.parts.qualifiers.contains_key(*k) { c2.parts.qualifiers[*k] = SmallString::from(*v); } c2 },
+                        Op::RawEntry(k, v) => { let mut c2 = tb; if let Ok(e) = c2.parts.qualifiers.entry(*k) { *e.and_modify(|x| x.clear()).or_insert("") = SmallString::from(*v); } c2 },
                     };
                 }
                 let rule_ok = t != PackageType::Maven || sig_ns(&m.ns).is_some();
